@@ -46,12 +46,14 @@ TEXTS = {
                design_ref="DESIGN.md section 5, C15",
                note="Trusted: Coq kernel, extraction, OCaml replayer, Go harness, verif exports of internal/hashmap. maphash is an input. The concurrent part is testing with property oracles, not proof.",
                technique="Coq proof of the SWAR kernel + executable table model with call-by-call correspondence; concurrent oracles on free-running executions"),
-    "C16": dict(text="Executable Coq model of the chunked MPSC queue (push split into reserve/publish) compared with the implementation after every call over all capacity pairs and growth steps, including "
-                     "producer-parked states; Coq lemmas: refusal only when full, empty only when caught up, the consumer waits for a reserved slot, no phantom element. The all-sequences FIFO "
-                     "refinement is not yet a Coq theorem (C16_seq_fifo pending; theorems named _partial).",
-               design_ref="DESIGN.md section 5, C16",
+    "C16": dict(text="Coq theorem C16_seq_fifo (theories/MpscFifo.v): for every pair of capacities NewMPSC accepts and every sequence of complete pushes and pops the chunked queue model answers exactly like a FIFO list of "
+                     "capacity roundup32(maximum) - through every growth step (new buffer, JUMP marker, link) and every move of the consumer into the next buffer: every accepted element returned exactly once in order, "
+                     "nothing else returned, an offer refused exactly when the queue holds its maximum (C16_refused_exactly_when_full, C16_size_bounded). The model (push split into reserve/publish) is compared with the "
+                     "implementation after every call over all capacity pairs and growth steps, including producer-parked states; lemmas for arbitrary states: empty only when caught up, the consumer waits for a reserved "
+                     "slot, no phantom element. Linearizability of the producers' CAS loop under concurrent producers is not a Coq theorem (free-running oracles + parked windows).",
+               design_ref="DESIGN.md section 0.2 and section 5, C16",
                note="Trusted: Coq kernel, extraction, OCaml replayer, Go harness, hook verifPoint in mpsc.go (tag verif). Interleavings beyond one parked producer are covered by free-running oracle checks only.",
-               technique="executable Coq model + correspondence replay with hook-parked schedules; Coq lemmas on push/pop (protocol-level proof partial)"),
+               technique="Coq refinement proof (chunked queue = bounded FIFO, all capacities and push/pop sequences) + executable model with correspondence replay and hook-parked schedules"),
     "C17": dict(text="Coq theorem over a small-step model of ring.add/drainTo (one step per atomic access): for every schedule and any number of producers the invariant holds, hence delivered is a prefix of "
                      "recorded (nothing unrecorded, nothing twice), at most 16 entries are held, and a drain at quiescence delivers everything recorded. The model is tied to the code by executing macro "
                      "schedules (including producers parked between CAS and store) on the real ring and comparing status, drained values, head, tail and slot occupancy; the striped table is covered by implementation oracles.",
